@@ -194,7 +194,7 @@ class SimulationFixedTimes(Simulation):
         jump_increment = self.process.model.jump_increment
         increments = [jump_increment(n=nbOfJumps) for nbOfJumps in all_nb_of_jumps]
         jump_values = np.array([np.sum(increment) for increment in increments])
-        return jump_values
+        return np.cumsum(jump_values)  # running sum of the jumps at each date
 
     def simulate_diffusion(self, sqrt_dts):
         stddev = sqrt_dts * self.process.model.diffusion_coefficient()
